@@ -226,7 +226,17 @@ def ptes_for(rng, entries, per_pattern=1):
 
 
 def blob(rng, ptes):
-    return b"".join(entry_bytes(rng, p) for p in ptes)
+    """entries for the PTEs, with all-zero entries and nearly-zero entries (only one field non-zero) in between"""
+    out = []
+    for p in ptes:
+        k = rng.random()
+        if k < 0.08:
+            out.append(bytes(8))
+        elif k < 0.12:
+            out.append(rng.choice((entry_bytes(rng, 0, 0, 1), entry_bytes(rng, 0, 1, 0), entry_bytes(rng, 1, 0, 0),
+                                   entry_bytes(rng, 0, 0x0100, 0), entry_bytes(rng, 0x01000000, 0, 0))))
+        out.append(entry_bytes(rng, p))
+    return b"".join(out)
 
 
 # ---------------------------------------------------------------------------------------------
@@ -466,7 +476,7 @@ def run(run, model, proof):
             if not tb.entries or not tb.supported:
                 run.violation("table:shipped", "shipped table %s is empty or has a pattern with regex metacharacters" % name,
                               dict(kind="S", fn="ilog_table", table=tb.desc))
-            ptes = ptes_for(rng, tb.entries, 2 if thorough else 1)
+            ptes = ptes_for(rng, tb.entries, 6 if thorough else 1)
             rng.shuffle(ptes)
             step = 400
             for i in range(0, len(ptes), step):
@@ -485,7 +495,7 @@ def run(run, model, proof):
         length_sweep(run, model, rng, tb, "positions")
         ptes = ptes_for(rng, tb.entries, 8) + [0xAAAAAAAA ^ (0xF << (4 * i)) for i in range(8)] + [0x55555555, 0]
         check_data(run, model, tb, blob(rng, ptes), "positions:patterns")
-        for t in range(160 if thorough else 36):
+        for t in range(600 if thorough else 36):
             n = rng.choice((0, 1, 2, 3, 5, 8, 13, 30))
             meta = t % 9 == 8
             rows = gen_table(rng, n, meta=meta)
@@ -509,7 +519,7 @@ def run(run, model, proof):
             for i in range(0, len(ptes), 64):
                 check_data(run, model, tb, blob(rng, ptes[i:i + 64]), "synthetic:patterns")
         # ---- entries built directly: raw parameter tuples (constructor filter), every format
-        for t in range(6000 if thorough else 1200):
+        for t in range(30000 if thorough else 1200):
             base = "%08X" % rng.randrange(1 << 32)
             pat = gen_pattern(rng, base)
             fmt = rng.choice(FORMATS).replace('\\"', '"') if t % 3 else gen_format(rng)
@@ -518,7 +528,7 @@ def run(run, model, proof):
             for pte in (p, p | 0x00040000, (p & 0x0FFFFFFF) | 0xE0040000, rng.randrange(1 << 32)):
                 check_entry(run, model, pat, fmt, params, pte, "entry")
         # ---- %-formatting against the interpreter
-        for t in range(20000 if thorough else 3000):
+        for t in range(60000 if thorough else 3000):
             fmt = gen_format(rng)
             for k in {rng.randrange(0, 6), fmt.count("%") - 2 * fmt.count("%%")}:
                 args = [rng.choice((0, 1, 9, 10, 15, 16, 65, 97, 127, 128, 255, rng.randrange(256))) for _ in range(max(0, k))]
